@@ -549,6 +549,29 @@ pub struct SolutionEdge<'a, EntryType: Entry> {
 }
 
 impl<'a, EntryType: Entry> SolutionEdge<'a, EntryType> {
+    /// Returns true if the edge traverses its segment in construction direction, i.e. towards the
+    /// last AS of the segment.
+    #[inline]
+    fn in_construction_direction(&self) -> bool {
+        self.dst
+            .ia()
+            .is_some_and(|dst| Some(dst) == self.segment.path_segment().last_ia())
+    }
+
+    /// Returns true if the edge uses a non-core segment as an up segment, i.e. from its last AS
+    /// towards the core, against construction direction.
+    #[inline]
+    fn is_up(&self) -> bool {
+        self.segment.is_non_core() && !self.in_construction_direction()
+    }
+
+    /// Returns true if the edge uses a non-core segment as a down segment, i.e. towards its last
+    /// AS, in construction direction.
+    #[inline]
+    fn is_down(&self) -> bool {
+        self.segment.is_non_core() && self.in_construction_direction()
+    }
+
     /// Initialize the segment id for the infofield that is created from this edge.
     /// The segment id needs to be set to the beta_i where i is the index of the
     /// first as entry from this segment that will be traversed.
@@ -645,7 +668,7 @@ impl<'a, EntryType: Entry> PathSolution<'a, EntryType> {
     /// Returns None if the solution with the new edge would be invalid.
     #[inline]
     pub fn try_add_edge(&self, e: SolutionEdge<'a, EntryType>) -> Option<Self> {
-        if !self.valid_next_seg(e.segment) {
+        if !self.valid_next_seg(&e) {
             return None;
         }
         let cost = self.cost + e.edge.weight;
@@ -659,17 +682,24 @@ impl<'a, EntryType: Entry> PathSolution<'a, EntryType> {
         })
     }
 
+    /// Paths are valley free: a non-core segment is either used as an up segment (from its last AS
+    /// towards the core), which must come first, or as a down segment (towards its last AS), which
+    /// must come last. Up and down segments are passed in one list, the direction in which an edge
+    /// traverses its segment tells them apart.
     #[inline]
-    fn valid_next_seg(&self, segment: &InputSegment<EntryType>) -> bool {
+    fn valid_next_seg(&self, next: &SolutionEdge<'a, EntryType>) -> bool {
         match self.edges.as_slice() {
             [] => true,
             [last] => {
-                // All two segment combinations are valid except core,core.
-                last.segment.is_non_core() || segment.is_non_core()
+                // All two segment combinations are valid except core,core, anything after a down
+                // segment and an up segment after anything.
+                (last.segment.is_non_core() || next.segment.is_non_core())
+                    && !last.is_down()
+                    && !next.is_up()
             }
             [first, second] => {
-                // Only non-core,core,non-core is valid.
-                first.segment.is_non_core() && second.segment.is_core() && segment.is_non_core()
+                // Only up,core,down is valid.
+                first.is_up() && second.segment.is_core() && next.is_down()
             }
             _ => {
                 // This will never happen.
